@@ -70,6 +70,7 @@ type Life struct {
 	// cumulative
 	Addressed     map[string]map[string]int // file -> test -> highest ordinal
 	AddressedSolo map[string]bool
+	SoloJSON      map[string]bool // standalone files written through MatchStandaloneJSON
 	Tally         map[string]int
 	calls         map[int]*scen.Call
 	site          map[int]int
@@ -79,7 +80,7 @@ type Life struct {
 
 func NewLife(l *scen.Lifetime) *Life {
 	lf := &Life{L: l, Mode: ModeOf(l.Env), ord: map[string]int{}, ordNode: map[string]int{},
-		Addressed: map[string]map[string]int{}, AddressedSolo: map[string]bool{}, Tally: map[string]int{},
+		Addressed: map[string]map[string]int{}, AddressedSolo: map[string]bool{}, SoloJSON: map[string]bool{}, Tally: map[string]int{},
 		calls: map[int]*scen.Call{}, site: map[int]int{}, Nodes: map[string]bool{}, nodeOfCall: map[int]string{}}
 	var walk func(n *scen.TestNode, site int, full string)
 	walk = func(n *scen.TestNode, site int, full string) {
@@ -150,6 +151,9 @@ func (lf *Life) Step(d *Disk, ev *scen.CallEvent, nodeExec int) (*Expect, error)
 	if loc.Standalone {
 		ex.File = fmt.Sprintf(loc.Path, ex.K)
 		lf.AddressedSolo[ex.File] = true
+		if c.API == scen.APISJSON {
+			lf.SoloJSON[ex.File] = true
+		}
 	} else {
 		ex.File = loc.Path
 		m := lf.Addressed[ex.File]
